@@ -91,6 +91,7 @@ type ACase struct {
 	MExpRaw json.RawMessage `json:"mexp,omitempty"`
 	MPlRaw  json.RawMessage `json:"mpl,omitempty"`
 	OrdObs  bool            `json:"ordobs,omitempty"` // C08: the order of k-selection and its comparison is observable on this case
+	NRows   int             `json:"nrows,omitempty"`  // C08: rows of the SQL result by LogQLPlan!PlanMetricRows (fragments B, S)
 }
 
 // ----------------------------------------------- pools ------------------------------------------------------
